@@ -117,7 +117,8 @@ impl MutX for Limit<&'static mut dyn MutX> {
 pub enum WSpec {
     /// initial contents length, spare capacity
     Vec(usize, usize),
-    /// kind (0 inline, 1 inline+offset, 2 shared, 3 shared+offset+cut capacity), initial length, spare
+    /// kind (0 inline, 1 inline+offset, 2 shared, 3 shared+offset+cut capacity, 4..=6 converted back from a
+    /// Bytes with a front offset: frozen shared BytesMut / Vec with spare / exact boxed slice), initial length, spare
     BM(usize, usize, usize),
     Slice(usize),
     Uninit(usize),
@@ -187,7 +188,34 @@ pub fn build(s: &WSpec, leaves: &mut Vec<LeafInfo>) -> MX {
         }
         WSpec::BM(k, i, sp) => {
             let init = init_bytes(*i, 2);
-            let m = match k % 4 {
+            let m = match k % 7 {
+                4 => {
+                    // round trip through Bytes: shared BytesMut -> freeze -> advance -> back (unique, front offset)
+                    let mut m = BytesMut::with_capacity(i + sp + 7);
+                    m.extend_from_slice(&[0; 7]);
+                    m.extend_from_slice(&init);
+                    drop(m.split_to(2));
+                    let mut b = m.freeze();
+                    bytes::Buf::advance(&mut b, 5);
+                    BytesMut::from(b)
+                }
+                5 => {
+                    // Vec with spare capacity -> Bytes (shared repr) -> advance -> BytesMut (unique)
+                    let mut v = Vec::with_capacity(i + sp + 3);
+                    v.extend_from_slice(&[0; 3]);
+                    v.extend_from_slice(&init);
+                    let mut b = bytes::Bytes::from(v);
+                    bytes::Buf::advance(&mut b, 3);
+                    BytesMut::from(b)
+                }
+                6 => {
+                    // exact boxed slice -> promotable Bytes -> advance -> BytesMut (no spare capacity)
+                    let mut v = vec![0u8; 3];
+                    v.extend_from_slice(&init);
+                    let mut b = bytes::Bytes::from(v.into_boxed_slice());
+                    bytes::Buf::advance(&mut b, 3);
+                    BytesMut::from(b)
+                }
                 3 => {
                     // shared, unique, front offset, capacity cut by split_off (reserve can reclaim in place)
                     let mut m = BytesMut::with_capacity(i + sp + 24);
